@@ -18,12 +18,20 @@ pub struct Instant(std::time::Instant);
 #[allow(dead_code)]
 impl Instant {
     pub fn now() -> Self {
+        #[cfg(biscuit_auth_biscuit_rust_verif)]
+        if let Some(instant) = verif_clock::tick() {
+            return Self(instant);
+        }
         Self(std::time::Instant::now())
     }
     pub fn duration_since(&self, earlier: Instant) -> Duration {
         self.0.duration_since(earlier.0)
     }
     pub fn elapsed(&self) -> Duration {
+        #[cfg(biscuit_auth_biscuit_rust_verif)]
+        if verif_clock::active() {
+            return Self::now().duration_since(*self);
+        }
         self.0.elapsed()
     }
     pub fn checked_add(&self, duration: Duration) -> Option<Self> {
@@ -99,5 +107,64 @@ impl AddAssign<Duration> for Instant {
 impl SubAssign<Duration> for Instant {
     fn sub_assign(&mut self, other: Duration) {
         *self = *self - other;
+    }
+}
+
+/// Verification hook: a thread-local scripted clock. When armed with `set(start, step)`,
+/// every clock reading on this thread returns `start`, `start + step`, `start + 2 * step`...
+/// (nanoseconds after a fixed base instant) instead of the system clock, so that time-limit
+/// decisions replay deterministically. Compiled only with `--cfg biscuit_auth_biscuit_rust_verif`.
+#[cfg(all(biscuit_auth_biscuit_rust_verif, not(target_arch = "wasm32")))]
+pub mod verif_clock {
+    use std::cell::Cell;
+    use std::time::Duration;
+
+    thread_local! {
+        static FAKE: Cell<Option<(u64, u64)>> = Cell::new(None);
+        static BASE: Cell<Option<std::time::Instant>> = Cell::new(None);
+        static READS: Cell<u64> = Cell::new(0);
+    }
+
+    fn base() -> std::time::Instant {
+        BASE.with(|b| match b.get() {
+            Some(i) => i,
+            None => {
+                let i = std::time::Instant::now();
+                b.set(Some(i));
+                i
+            }
+        })
+    }
+
+    /// arms the scripted clock on this thread
+    pub fn set(start_ns: u64, step_ns: u64) {
+        base();
+        FAKE.with(|f| f.set(Some((start_ns, step_ns))));
+        READS.with(|r| r.set(0));
+    }
+
+    /// back to the system clock
+    pub fn clear() {
+        FAKE.with(|f| f.set(None));
+    }
+
+    pub fn active() -> bool {
+        FAKE.with(|f| f.get().is_some())
+    }
+
+    /// number of clock readings since `set`
+    pub fn reads() -> u64 {
+        READS.with(|r| r.get())
+    }
+
+    pub(crate) fn tick() -> Option<std::time::Instant> {
+        FAKE.with(|f| match f.get() {
+            None => None,
+            Some((now, step)) => {
+                f.set(Some((now.saturating_add(step), step)));
+                READS.with(|r| r.set(r.get() + 1));
+                Some(base() + Duration::from_nanos(now))
+            }
+        })
     }
 }
